@@ -299,6 +299,7 @@ def register_type(
         ValueError,
         TypeError,
         AttributeError,
+        ArithmeticError,
     ),
     type_check: Callable = lambda v, t: v.__class__ == t,
     fail_already_registered: bool = True,
